@@ -6,5 +6,6 @@ import Arp.Props.C17StdCos
 import Arp.Props.C17Tan
 import Arp.Props.C17TanBig
 import Arp.Props.C17StdTan
+import Arp.Props.C17StdWide
 /-! # C17 — every theorem of the property (specials, exact symmetry, accuracy of `sin`, `cos`, `tan`: small arguments
 universally, `1 ≤ |x| ≤ 128` conditionally on the computed `π` and unconditionally at the standard formats) -/
